@@ -29,11 +29,11 @@ class Kill(BaseException):
 
 
 class MT:
-    __slots__ = ("name", "sem", "blocked", "timeout", "done", "timed_out", "real", "key", "obj", "error", "started", "origin")
+    __slots__ = ("name", "sem", "blocked", "timeout", "done", "timed_out", "real", "key", "obj", "error", "started", "origin", "quiet")
     def __init__(self, name):
         self.name = name; self.sem = _rt.Semaphore(0); self.blocked = None; self.timeout = False
         self.done = False; self.timed_out = False; self.real = None; self.key = ("boot",); self.obj = None
-        self.error = None; self.started = False; self.origin = None
+        self.error = None; self.started = False; self.origin = None; self.quiet = 0
 
 
 class Controller:
@@ -54,6 +54,8 @@ class Controller:
         self.current = None
         self.choices = []                        # (enabled names, chosen name) per step
         self.on_step = None                      # harness hook called by the controller between steps
+        self.roles = None                        # optional {id(shared object) | ("pipe", id): role}: primitive events carry roles
+        self.pipe_role = None                    # optional callable -> role of a virtual pipe being created
 
     # ------------------------------------------------------------------ thread side
     def me(self):
@@ -118,6 +120,8 @@ class Controller:
             return False
         if self.killing:
             raise Kill()
+        if t.quiet:                               # set-up of an object no other thread can see yet: not an event, never blocks
+            return False
         t.key = key; t.blocked = blocked; t.timeout = timeout; t.timed_out = False
         self.ctl.release()
         t.sem.acquire()
@@ -172,21 +176,58 @@ class Controller:
 def make_primitives(ctl, thread_namer=None):
     """-> namespace object with Lock, RLock, Event, Thread, Queue, Pinger, select, threading (module stand-in)"""
 
-    def P(op, extra=None):
+    def P(op, extra=None, obj=None):
+        """the event of a primitive operation.  Default: ("P", op, function, line) — identified by the statement that performs
+        it.  With `ctl.roles` (a dict object -> role filled by the harness): ("R", op, role, function, line) — identified by the
+        shared OBJECT it operates on, independent of the layout of the code (function and line are diagnostics only)."""
         q, l = ctl.where()
+        roles = getattr(ctl, "roles", None)
+        if roles is not None:
+            return ("R", op, roles.get(obj if isinstance(obj, tuple) else id(obj), "?"), q, l)
         return ("P", op, q, l) if extra is None else ("P", op, q, l, extra)
+
+    import collections as _collections
+    class FDeque(_collections.deque):
+        """collections.deque whose operations are events (and pre-emption points) of the forced scheduler; the harness reads
+        it through peek() / size() without events"""
+        _D = _collections.deque
+        def peek(self): return list(self._D.__iter__(self))
+        def size(self): return self._D.__len__(self)
+        def append(self, x): ctl.yield_point(P("deque.append", obj=self)); self._D.append(self, x)
+        def appendleft(self, x): ctl.yield_point(P("deque.appendleft", obj=self)); self._D.appendleft(self, x)
+        def popleft(self): ctl.yield_point(P("deque.popleft", obj=self)); return self._D.popleft(self)
+        def pop(self): ctl.yield_point(P("deque.pop", obj=self)); return self._D.pop(self)
+        def __contains__(self, x):
+            ctl.yield_point(P("deque.contains", obj=self))
+            return self._D.__contains__(self, x)
+        def __len__(self):
+            if ctl.me() is not None: ctl.yield_point(P("deque.len", obj=self))
+            return self._D.__len__(self)
+        def __iter__(self): ctl.yield_point(P("deque.iter", obj=self)); return self._D.__iter__(self)
+        def __getitem__(self, i): ctl.yield_point(P("deque.getitem", obj=self)); return self._D.__getitem__(self, i)
+        def __setitem__(self, i, v): ctl.yield_point(P("deque.setitem", obj=self)); return self._D.__setitem__(self, i, v)
+        def __delitem__(self, i): ctl.yield_point(P("deque.delitem", obj=self)); return self._D.__delitem__(self, i)
+        def remove(self, x): ctl.yield_point(P("deque.remove", obj=self)); return self._D.remove(self, x)
+        def clear(self): ctl.yield_point(P("deque.clear", obj=self)); return self._D.clear(self)
+        def extend(self, it): ctl.yield_point(P("deque.extend", obj=self)); return self._D.extend(self, it)
+        def extendleft(self, it): ctl.yield_point(P("deque.extendleft", obj=self)); return self._D.extendleft(self, it)
+        def insert(self, i, x): ctl.yield_point(P("deque.insert", obj=self)); return self._D.insert(self, i, x)
+        def rotate(self, n=1): ctl.yield_point(P("deque.rotate", obj=self)); return self._D.rotate(self, n)
+        def index(self, *a): ctl.yield_point(P("deque.index", obj=self)); return self._D.index(self, *a)
+        def count(self, x): ctl.yield_point(P("deque.count", obj=self)); return self._D.count(self, x)
+        def copy(self): ctl.yield_point(P("deque.iter", obj=self)); return _collections.deque(self._D.__iter__(self))
 
     class FLock:
         def __init__(self):
             self._locked = False; self.owner = None
         def acquire(self, blocking=True, timeout=-1):
-            to = ctl.yield_point(P("Lock.acquire"), blocked=(lambda: not self._locked) if blocking else None,
+            to = ctl.yield_point(P("Lock.acquire", obj=self), blocked=(lambda: not self._locked) if blocking else None,
                                  timeout=blocking and timeout is not None and timeout >= 0)
             if to or self._locked: return False
             self._locked = True; self.owner = ctl.me()
             return True
         def release(self):
-            ctl.yield_point(P("Lock.release"))
+            ctl.yield_point(P("Lock.release", obj=self))
             if not self._locked: raise RuntimeError("release unlocked lock")
             self._locked = False; self.owner = None
         def locked(self): return self._locked
@@ -203,7 +244,7 @@ def make_primitives(ctl, thread_namer=None):
             me = self._me()
             if self._owner is me:
                 self._count += 1; return True
-            to = ctl.yield_point(P("Lock.acquire"), blocked=(lambda: self._owner is None) if blocking else None,
+            to = ctl.yield_point(P("Lock.acquire", obj=self), blocked=(lambda: self._owner is None) if blocking else None,
                                  timeout=blocking and timeout is not None and timeout >= 0)
             if to or self._owner is not None: return False
             self._owner = me; self._count = 1
@@ -212,7 +253,7 @@ def make_primitives(ctl, thread_namer=None):
             if self._owner is not self._me(): raise RuntimeError("cannot release un-acquired lock")
             if self._count > 1:
                 self._count -= 1; return
-            ctl.yield_point(P("Lock.release"))
+            ctl.yield_point(P("Lock.release", obj=self))
             self._owner = None; self._count = 0
         def locked(self): return self._owner is not None
         def __enter__(self): self.acquire(); return self
@@ -221,28 +262,28 @@ def make_primitives(ctl, thread_namer=None):
     class FEvent:
         def __init__(self): self._flag = False
         def set(self):
-            ctl.yield_point(P("Event.set")); self._flag = True
+            ctl.yield_point(P("Event.set", obj=self)); self._flag = True
         def clear(self):
-            ctl.yield_point(P("Event.clear")); self._flag = False
+            ctl.yield_point(P("Event.clear", obj=self)); self._flag = False
         def is_set(self): return self._flag
         isSet = is_set
         def wait(self, timeout=None):
-            ctl.yield_point(P("Event.wait"), blocked=lambda: self._flag, timeout=timeout is not None)
+            ctl.yield_point(P("Event.wait", obj=self), blocked=lambda: self._flag, timeout=timeout is not None)
             return self._flag
 
     class FQueue:
         def __init__(self, maxsize=0): self._q = collections.deque()
         def put(self, item, block=True, timeout=None):
-            ctl.yield_point(P("Queue.put")); self._q.append(item)
+            ctl.yield_point(P("Queue.put", obj=self)); self._q.append(item)
         def get(self, block=True, timeout=None):
-            ctl.yield_point(P("Queue.get"), blocked=(lambda: bool(self._q)) if block else None,
+            ctl.yield_point(P("Queue.get", obj=self), blocked=(lambda: bool(self._q)) if block else None,
                             timeout=block and timeout is not None)
             if not self._q:
                 import queue
                 raise queue.Empty()
             return self._q.popleft()
         def empty(self):
-            ctl.yield_point(P("Queue.empty")); return not self._q
+            ctl.yield_point(P("Queue.empty", obj=self)); return not self._q
         def qsize(self): return len(self._q)
         def task_done(self): pass
         def snapshot(self): return list(self._q)
@@ -292,17 +333,20 @@ def make_primitives(ctl, thread_namer=None):
             r, w = self._next, self._next + 1; self._next += 2
             buf = [0]
             self._pipes[r] = buf; self._pipes[w] = buf
+            roles = getattr(ctl, "roles", None)
+            if roles is not None and getattr(ctl, "pipe_role", None) is not None:
+                roles[("pipe", id(buf))] = ctl.pipe_role()
             return r, w
         def pending(self, fd): return self._pipes[fd][0]
         def write(self, fd, data):
             if fd not in self._pipes: return self._os.write(fd, data)
-            ctl.yield_point(P("ping"))
+            ctl.yield_point(P("ping", obj=("pipe", id(self._pipes[fd]))))
             self._pipes[fd][0] += len(data)
             return len(data)
         def read(self, fd, n):
             if fd not in self._pipes: return self._os.read(fd, n)
             buf = self._pipes[fd]
-            ctl.yield_point(P("pongAll"), blocked=lambda: buf[0] > 0)        # a blocking pipe: read waits for data
+            ctl.yield_point(P("pongAll", obj=("pipe", id(buf))), blocked=lambda: buf[0] > 0)        # a blocking pipe: read waits for data
             k = min(n, buf[0]); buf[0] -= k
             return b" " * k
         def close(self, fd):
@@ -343,7 +387,7 @@ def make_primitives(ctl, thread_namer=None):
     class NS: pass
     ns = NS()
     ns.Lock, ns.Event, ns.Queue, ns.Pinger, ns.select, ns.Thread = FLock, FEvent, FQueue, FPinger, fselect, FThread
-    ns.RLock, ns.P, ns.VirtualOS = FRLock, P, VirtualOS
+    ns.RLock, ns.P, ns.VirtualOS, ns.Deque = FRLock, P, VirtualOS, FDeque
     ns.threading, ns.select_module = FThreading, FSelectModule
     return ns
 
